@@ -310,7 +310,7 @@ def rule_r7(chk, facts):
              'program counter, retracted words) are only combined through Granularity()', min_instances=6)
     from . import units
     T = {'LenSoFar': 'B', 'ErgLen': 'B', 'CodeBufferFill': 'B', 'CodeLen': 'A', 'Cnt': 'A', 'PCs': 'A', 'NStart': 'A',
-         'RecPos': 'B', 'LenPos': 'B'}
+         'RecPos': 'B', 'LenPos': 'B', 'h': 'x', 'PC': 'A'}
     FN = {'Granularity': 'G', 'ProgCounter': 'A', 'EProgCounter': 'A', 'ftell': 'B'}
     for fn in ('WriteBytes', 'RetractWords', 'NewRecord'):
         units.check_function(chk, 'C04-R7', facts.func('asmcode.c', fn), T, None, FN)
